@@ -316,7 +316,11 @@ class ParameterConfigConverter:
       else:
         raise ValueError('DOUBLE type cannot have child parameters')
       if child.child_parameter_configs:
-        cls._set_child_parameter_configs(child_proto, child)
+        # `conditional_parameter_spec` holds a copy of `child_proto`; the
+        # grandchildren have to be attached to that copy.
+        cls._set_child_parameter_configs(
+            conditional_parameter_spec.parameter_spec, child
+        )
       parent_proto.conditional_parameter_specs.extend(
           [conditional_parameter_spec]
       )
